@@ -7,8 +7,9 @@ SPEC = {
         {"bin": "h_wire_views", "n": {"quick": 256, "thorough": 4000}, "args": ["--mode", "full"]},
         {"bin": "h_wire_views", "n": {"quick": 2400, "thorough": 80000}, "args": ["--mode", "sizes"]},
     ],
-    "rule": "mode full: structured SCION packets (path type x address nibbles x segment lengths x header-length +-1 x payload kinds UDP/SCMP/other), standalone path / field / UDP / SCMP buffers, truncated at field boundaries +-1; every view kind constructed, every safe accessor run, 1-4 safe mutators interleaved with accessors, all under catch_unwind; mode sizes: construction results only, sampled from the product of the size-determining fields x truncation points; a case is non-trivial when the constructor accepts; distinct by full case text",
+    "rule": "mode full: structured SCION packets (path type x address nibbles x segment lengths x header-length +-1 x payload kinds UDP/SCMP/other), standalone path / field / UDP / SCMP buffers, truncated at field boundaries +-1; every view kind constructed, every safe accessor run, 1-4 safe mutators interleaved with accessors, all under catch_unwind; every case also runs every constructor family of `View` (try_from_slice, try_from_mut_slice, try_from_boxed, to_boxed, copy_to_slice into required-1 / required / required+5 bytes, Box<Raw>::try_into_udp / try_into_scmp, Box<typed packet>::into_raw) on the case's input bytes as they are (shorter, exact or longer than the view); mode sizes: construction results only: first, for every view kind (all 11, every typed SCMP message view), a buffer of exactly the required size, one byte short, and with 1 / 3 / 17 / 4099 trailing bytes (boxed constructor must accept the exact one only; oracle: an owned view reports and owns exactly the required size = the whole input, a borrowed view is the first required-size bytes), then samples from the product of the size-determining fields x truncation points; a case is non-trivial when the constructor accepts; distinct by full case text",
     "assumptions": ["undefined behaviour of a release build is not observable in the model: out-of-range accesses are modelled as Panic and shown unreachable",
-                    "the accessor numbering of Wire/Views.v and h_wire_views.rs is kept in sync by the correspondence check itself"],
+                    "the accessor numbering of Wire/Views.v and h_wire_views.rs is kept in sync by the correspondence check itself",
+                    "try_from_boxed with a length other than the required size is not executed on the fixed-size views when a probe on a slice-backed view shows the exact-size check is gone (it would be undefined behaviour inside the harness); the case is then reported as a violation (class 97)"],
 }
 def main(argv): vlib.standard_main(SPEC, argv)
